@@ -169,7 +169,7 @@ Print Assumptions C16_refutations_repaired.
 
 (* ---- the hand-polled schedules of the correspondence check are schedules of the theorems ---- *)
 Theorem C16_polls_are_schedules : forall v w0 ops polls,
-  exists sched, run_polls (handle v) is_sync poll_fuel (start v w0 ops) polls = prun v (start v w0 ops) sched.
+  exists sched, fold_left (ppoll v) polls (start v w0 ops) = prun v (start v w0 ops) sched.
 Proof. exact polls_are_schedules. Qed.
 Print Assumptions C16_polls_are_schedules.
 
